@@ -6,7 +6,11 @@ import XtModel.Model.Output
 import XtModel.Model.Input
 import XtModel.Model.Detect
 import XtModel.Model.TomlOrder
+import XtModel.Model.Faults
 import XtModel.Model.Json
+import XtModel.Model.MsgpackSize
+import XtModel.Model.MsgpackCodec
+import XtModel.Model.CliWire
 
 /-!
 Native driver: one case per input line, one answer per output line
@@ -388,6 +392,98 @@ def json (fs : List String) : String :=
     | none => "bad-case"
   | _ => "bad-case"
 
+/-! ### writeall: `<limit|-> <pieces|-> <call-hex>/<call-hex>…` -/
+def faults (fs : List String) : String :=
+  match fs with
+  | ["writeall", limit, pieces, calls] =>
+    let lim : Option (Option Nat) := if limit = "-" then some none else limit.toNat?.map some
+    match lim, parseNats pieces, (calls.splitOn "/").mapM parseHex with
+    | some l, some ps, some cs =>
+      let (r, w) := Xt.Faults.writeAlls ⟨[], l, ps⟩ cs
+      (match r with
+        | .ok () => "ok"
+        | .error .fault => "err:fault"
+        | .error .writeZero => "err:writezero") ++ " " ++ toHex w.accepted
+    | _, _, _ => "bad-case"
+  | _ => "bad-case"
+
+/-! ### MessagePack engines -/
+namespace MP
+
+def siteName : Msgpack.Site → String
+  | .tryIntoUnwrap => "try_into_unwrap"
+  | .inputSlice k => s!"input_slice_{k}"
+  | .depthSub => "depth_sub"
+  | .seqSlice => "seq_slice"
+  | .mapSlice => "map_slice"
+
+def resTok : Msgpack.Res → String
+  | .ok n => s!"ok:{n}"
+  | .truncated => "trunc"
+  | .invalidMarker => "marker"
+  | .depthExceeded => "depth"
+  | .panic s => "panic:" ++ siteName s
+
+/-- `format!("{:?}", Marker::from_u8(b))`. -/
+def markerName : Msgpack.Marker → String
+  | .fixPos v => s!"FixPos({v})"
+  | .fixNeg v => s!"FixNeg(-{256 - v})"
+  | .null => "Null" | .true_ => "True" | .false_ => "False"
+  | .u8 => "U8" | .u16 => "U16" | .u32 => "U32" | .u64 => "U64"
+  | .i8 => "I8" | .i16 => "I16" | .i32 => "I32" | .i64 => "I64"
+  | .f32 => "F32" | .f64 => "F64"
+  | .fixStr n => s!"FixStr({n})" | .str8 => "Str8" | .str16 => "Str16" | .str32 => "Str32"
+  | .bin8 => "Bin8" | .bin16 => "Bin16" | .bin32 => "Bin32"
+  | .fixArray n => s!"FixArray({n})" | .array16 => "Array16" | .array32 => "Array32"
+  | .fixMap n => s!"FixMap({n})" | .map16 => "Map16" | .map32 => "Map32"
+  | .fixExt1 => "FixExt1" | .fixExt2 => "FixExt2" | .fixExt4 => "FixExt4"
+  | .fixExt8 => "FixExt8" | .fixExt16 => "FixExt16"
+  | .ext8 => "Ext8" | .ext16 => "Ext16" | .ext32 => "Ext32"
+  | .reserved => "Reserved"
+
+def derrTok : Msgpack.DErr → String
+  | .eofMarker => "eof-marker"
+  | .eofData => "eof-data"
+  | .reserved => "reserved"
+  | .depthLimitExceeded => "depth"
+  | .depthUnderflow => "underflow"
+  | .extUnsupported => "ext"
+
+def verdictTok : Msgpack.Verdict → String
+  | .ok => "ok"
+  | .sizeErr r => "err:" ++ resTok r
+  | .decErr e => "err:" ++ derrTok e
+  | .panicSplitAt => "panic:split_at"
+
+def msgpack (fs : List String) : String :=
+  match fs with
+  | ["msgdecode", depth, hex] =>
+    match depth.toNat?, parseHex hex with
+    | some d, some bs =>
+      let s := Msgpack.sliceLoop false d d bs
+      let r := Msgpack.readerLoop false d bs
+      s!"slice:{verdictTok s.2}:{s.1.length} reader:{verdictTok r.2}:{r.1.length} enc:{toHex (Msgpack.encodeList r.1)}"
+    | _, _ => "bad-case"
+  | ["msgdec1", ext, depth, hex] =>
+    match depth.toNat?, parseHex hex with
+    | some d, some bs =>
+      match Msgpack.decodeG (ext == "1") d bs with
+      | .ok (v, rest) => s!"ok:{bs.length - rest.length}:{toHex (Msgpack.encode v)}"
+      | .error e => "err:" ++ derrTok e
+    | _, _ => "bad-case"
+  | ["msgsize", depth, hex] =>
+    match depth.toNat?, parseHex hex with
+    | some d, some bs => resTok (Msgpack.nextValueSize bs d)
+    | _, _ => "bad-case"
+  | ["msgclass", byte] =>
+    match byte.toNat? with
+    | some b => if b < 256 then markerName (Msgpack.Marker.ofByte b) else "bad-case"
+    | none => "bad-case"
+  | ["msgconst", "depth_limit"] => toString Msgpack.depthLimit
+  | _ => "bad-case"
+
+end MP
+
 def answer (fs : List String) : String :=
   match fs with
   | "encdetect" :: _ | "reencode" :: _ | "reencstream" :: _ => encoding fs
@@ -396,9 +492,13 @@ def answer (fs : List String) : String :=
   | "handle" :: _ => handle fs
   | "detectlist" :: _ | "mpmarker" :: _ => detectEng fs
   | "tomlorder" :: _ => tomlorder fs
+  | "writeall" :: _ => faults fs
   | "chunker" :: _ | "guards" :: _ => chunker fs
   | "frame" :: _ | "tomlout" :: _ => output fs
   | "json" :: _ | "jsonstr" :: _ | "jsonnum" :: _ | "jsondetect" :: _ => json fs
+  | "msgsize" :: _ | "msgclass" :: _ | "msgconst" :: _ | "msgdecode" :: _ | "msgdec1" :: _ => MP.msgpack fs
+  | "cli" :: _ | "noflush" :: _ | "plan" :: _ | "ext" :: _ | "stdinpath" :: _ | "fmtname" :: _ | "pipecheck" :: _
+  | "lexopt" :: _ => Xt.CliWire.answer fs
   | _ => "bad-engine"
 
 partial def loop (h : IO.FS.Stream) (out : IO.FS.Stream) : IO Unit := do
@@ -409,6 +509,7 @@ partial def loop (h : IO.FS.Stream) (out : IO.FS.Stream) : IO Unit := do
   | [_] => out.putStrLn "bad-line"; loop h out
   | eng :: id :: rest =>
     out.putStrLn (id ++ " " ++ answer (eng :: rest))
+    out.flush
     loop h out
 
 end Drv
